@@ -76,18 +76,14 @@ var c01Apps = []c01AppDef{
 			return resource.Result{}, nil
 		}
 	}},
-	{"vals", 8, func(v int) *app.App {
-		v1 := []string{"", "x", "xyz", "\u0436\u00e9"}[v%4] // the last one: 2 characters, 4 bytes
-		v2 := []string{"", "pq"}[v/4]
-		a := app.New("vals")
-		a.Node("root", "r {{.v1}}", codec.Ins{Op: codec.LOAD, Sym: "v1", N: 3}, codec.Ins{Op: codec.MAP, Sym: "v1"}, codec.Ins{Op: codec.MOUT, Sym: "m0", Sel: "1"},
-			codec.Ins{Op: codec.HALT}, codec.Ins{Op: codec.INCMP, Sym: "two", Sel: "1"})
-		a.Node("two", "t {{.v1}}/{{.v2}}", codec.Ins{Op: codec.LOAD, Sym: "v2", N: 2}, codec.Ins{Op: codec.MAP, Sym: "v1"}, codec.Ins{Op: codec.MAP, Sym: "v2"},
-			codec.Ins{Op: codec.MOUT, Sym: "back", Sel: "0"}, codec.Ins{Op: codec.MOUT, Sym: "longer label", Sel: "00"}, codec.Ins{Op: codec.HALT}, codec.Ins{Op: codec.INCMP, Sym: "_", Sel: "0"})
-		a.Node("_catch", "oops", c01Catch...)
-		a.Func("v1", constFunc(v1)).Func("v2", constFunc(v2))
+	{"vals", 8, c01ValsApp, []string{"1", "0", "zz", "a long junk input 0123456789", "z\u0436\u0436\u0436"}, nil},
+	{"valsep", 4, func(v int) *app.App {
+		a := c01ValsApp(v)
+		a.Name = "valsep"
+		a.MenusLang["nor"] = map[string]string{"m0": "en lengre etikett", "back": "tilbake til start"}
+		a.Nodes["two"].TplLang = map[string]string{"nor": "t/nor {{.v1}}/{{.v2}} og litt til"}
 		return a
-	}, []string{"1", "0", "zz", "a long junk input 0123456789", "z\u0436\u0436\u0436"}, nil},
+	}, []string{"1", "0", "zz"}, nil},
 	{"utf8", 2, func(v int) *app.App {
 		// multi-byte text everywhere: the limit is in bytes, not characters
 		a := app.New("utf8")
@@ -133,13 +129,17 @@ func c01Session(a *app.App, mode string, size uint32) *app.Session {
 var c01Variant = map[*app.App]int{}
 
 func c01SessionPlain(a *app.App, mode string, size uint32) *app.Session {
+	sep, lng := "", ""
+	if a.Name == "valsep" {
+		sep, lng = " -- ", "nor" // long menu separator and translated (longer) labels
+	}
 	if mode == "persisted" {
-		s := app.NewSession(a, engine.Config{SessionId: "s1", OutputSize: size}, app.Persisted)
+		s := app.NewSession(a, engine.Config{SessionId: "s1", OutputSize: size, MenuSeparator: sep, Language: lng}, app.Persisted)
 		s.Open = app.MemStore()
 		s.FinishOnError = true
 		return s
 	}
-	return app.NewSession(a, engine.Config{OutputSize: size}, app.LongLived)
+	return app.NewSession(a, engine.Config{OutputSize: size, MenuSeparator: sep, Language: lng}, app.LongLived)
 }
 
 // c01Unlimited serves the history without a limit.
@@ -325,4 +325,17 @@ func c01Run(c *mc.Ctx) {
 			return
 		}
 	}
+}
+
+var c01ValsApp = func(v int) *app.App {
+	v1 := []string{"", "x", "xyz", "\u0436\u00e9"}[v%4] // the last one: 2 characters, 4 bytes
+	v2 := []string{"", "pq"}[v/4]
+	a := app.New("vals")
+	a.Node("root", "r {{.v1}}", codec.Ins{Op: codec.LOAD, Sym: "v1", N: 3}, codec.Ins{Op: codec.MAP, Sym: "v1"}, codec.Ins{Op: codec.MOUT, Sym: "m0", Sel: "1"},
+		codec.Ins{Op: codec.HALT}, codec.Ins{Op: codec.INCMP, Sym: "two", Sel: "1"})
+	a.Node("two", "t {{.v1}}/{{.v2}}", codec.Ins{Op: codec.LOAD, Sym: "v2", N: 2}, codec.Ins{Op: codec.MAP, Sym: "v1"}, codec.Ins{Op: codec.MAP, Sym: "v2"},
+		codec.Ins{Op: codec.MOUT, Sym: "back", Sel: "0"}, codec.Ins{Op: codec.MOUT, Sym: "longer label", Sel: "00"}, codec.Ins{Op: codec.HALT}, codec.Ins{Op: codec.INCMP, Sym: "_", Sel: "0"})
+	a.Node("_catch", "oops", c01Catch...)
+	a.Func("v1", constFunc(v1)).Func("v2", constFunc(v2))
+	return a
 }
